@@ -183,6 +183,9 @@ type Opnd struct {
 	// The library documents that mant/exp of a special are ignored and never
 	// clears them, so "a zero/infinity with a history" is a distinct input shape.
 	Stale int8
+	// Gob (finite only): the value arrived through a gob payload carrying exactly Words, so the
+	// mantissa may be longer than the precision needs (low zero words that no rounding removed).
+	Gob bool
 }
 
 // staleKinds: previous finite contents of a variable that is now ±0/±Inf.
@@ -239,6 +242,9 @@ func (a *Opnd) String() string {
 	default:
 		s += fmt.Sprintf("%s", a.V.Norm().String()[b2i(a.Neg):])
 		s += fmt.Sprintf("[w%d]", len(a.Words))
+		if a.Gob {
+			s += "(via gob)"
+		}
 	}
 	return fmt.Sprintf("%s/p%d/m%d", s, a.Prec, a.Mode)
 }
@@ -361,6 +367,14 @@ func (a *Opnd) BuildInto(z *Dec) {
 		z.SetPrec(uint(a.Prec))
 		z.SetInf(a.Neg)
 	default:
+		if a.Gob {
+			d := viaGob(a)
+			if d == nil {
+				panic("Opnd.Build: gob payload for " + a.String() + " rejected")
+			}
+			*z = *d
+			return
+		}
 		ws := make([]Word, len(a.Words), len(a.Words))
 		for i, w := range a.Words {
 			ws[i] = Word(w)
